@@ -124,6 +124,13 @@ class World(object):
 
     def build_app(self):
         entries = []
+        if self.cfg.get('overlay'):
+            # another static application mounted BEFORE the others at a longer prefix (an overlay for one sub-directory) whose
+            # own directory holds none of the files asked for: whatever it cannot serve is the next application's to serve
+            ov = os.path.join(self.area, 'overlay-dir')
+            os.makedirs(ov, exist_ok=True)
+            self._w(os.path.join(ov, 'only-in-overlay.txt'), b'overlay\n')
+            entries.append((self.cfg['prefix'].rstrip('/') + '/sub/', StaticApplication(ov)))
         for roots in self.cfg['apps']:
             if len(roots) == 1 and self.cfg.get('single_as_string'):
                 sapp = StaticApplication(self.spelled(roots[0]))       # one directory, given as a plain string
@@ -290,6 +297,7 @@ class C14(Check):
                 'root_spelling': dict((r, rng.choice(['dotdot', 'dotdot', 'trailing-slash', 'dot', 'double-slash'])) for r in rnames if rng.random() < 0.3),
                 'root_dirname': dict((r, rng.choice(['site:v2-', 'assets;old-', 'a,b-', 'with space-', 'rel=1-']) + r) for r in rnames if rng.random() < 0.3),
                 'single_as_string': rng.random() < 0.5,
+                'overlay': rng.random() < 0.3,
                 # the server's time zone (POSIX TZ strings: no zone database needed), several with daylight saving
                 'tz': rng.choice([None, None, 'UTC', 'CET-1CEST,M3.5.0,M10.5.0/3', 'EST5EDT,M3.2.0,M11.1.0',
                                   'NZST-12NZDT,M9.5.0,M4.1.0/3', 'IST-5:30', 'XXX+11'])}
